@@ -383,4 +383,42 @@ the nil interface, `some (k, h)` a value of the `k`-th struct type of the packag
 order of declaration) whose single array field holds the bytes `h` -/
 abbrev Iface := Option (Nat × List (BitVec 8))
 
+/-! ## stage 12: math/big bit operations
+
+All of them are defined for every `Int` with the meaning math/big documents (`And`, `Or`, `Rsh` treat a negative number
+as its infinite two's complement; `Int.negSucc n` = `-(n+1)` = `~n`).  On non-negative arguments (`Int.ofNat`) they are
+the `Nat` operations by definition. -/
+
+/-- `z.SetBytes(b)`: the big-endian unsigned value of the bytes -/
+def bigSetBytes (b : List (BitVec 8)) : Int := Int.ofNat (b.foldl (fun acc x => acc * 256 + x.toNat) 0)
+
+/-- the minimal big-endian bytes of `n` (none for 0); `fuel ≥` the number of bytes -/
+def natBytesFuel : Nat → Nat → List (BitVec 8)
+  | 0, _ => []
+  | fuel + 1, n => if n = 0 then [] else natBytesFuel fuel (n / 256) ++ [BitVec.ofNat 8 (n % 256)]
+
+/-- `x.Bytes()`: the minimal big-endian bytes of the absolute value of `x`, empty for 0 (a number has at most as many
+bytes as its value, so the fuel suffices) -/
+def bigBytes (x : Int) : List (BitVec 8) := natBytesFuel x.natAbs x.natAbs
+
+/-- `x.Int64()`: `x` as an `int64` when it fits; otherwise (Go: "undefined") the low 64 bits, as the implementation does -/
+def bigInt64 (x : Int) : BitVec 64 := BitVec.ofInt 64 x
+
+/-- `z.And(x, y)` -/
+def bigAnd : Int → Int → Int
+  | .ofNat a, .ofNat b => .ofNat (a &&& b)
+  | .ofNat a, .negSucc b => .ofNat (a ^^^ (a &&& b))          -- a & ~b
+  | .negSucc a, .ofNat b => .ofNat (b ^^^ (b &&& a))          -- ~a & b
+  | .negSucc a, .negSucc b => .negSucc (a ||| b)               -- ~a & ~b = ~(a | b)
+
+/-- `z.Or(x, y)` -/
+def bigOr : Int → Int → Int
+  | .ofNat a, .ofNat b => .ofNat (a ||| b)
+  | .ofNat a, .negSucc b => .negSucc (b ^^^ (b &&& a))        -- a | ~b = ~(b & ~a)
+  | .negSucc a, .ofNat b => .negSucc (a ^^^ (a &&& b))        -- ~a | b = ~(a & ~b)
+  | .negSucc a, .negSucc b => .negSucc (a &&& b)               -- ~a | ~b = ~(a & b)
+
+/-- `z.Rsh(x, n)`: the arithmetic shift (floor division by 2ⁿ) -/
+def bigRsh (x : Int) (n : Nat) : Int := x >>> n
+
 end Iota.Go
